@@ -145,6 +145,32 @@ def run(ctx):
     ctx.cov["oracle"]["large_message_to_slow_reader"] = {"cases": len(slow), "octets": len(big), "failures": len(slow_bad)}
     if slow_bad:
         ctx.violation({"kind": "oracle-wire-backpressure", "flavor": slow_bad[0][0], "what": slow_bad[0][1]})
+    # ---- a refused step before the content: whatever the server announced (PIPELINING, CHUNKING ...), message octets are written only after
+    #      a 354; a content that reads like commands must never reach a server that is still in command state
+    smuggle = b"Subject: x\r\n\r\nRSET\r\nMAIL FROM:<ceo@x.org>\r\nRCPT TO:<all@x.org>\r\nDATA\r\nhello\r\n.\r\nQUIT\r\n"
+    rscs = []
+    for fl in ("sync", "tokio"):
+        for ehlo in (b"250-srv\r\n250-PIPELINING\r\n250-8BITMIME\r\n250 SMTPUTF8\r\n", b"250-srv\r\n250-CHUNKING\r\n250-PIPELINING\r\n250 BINARYMIME\r\n", b"250-srv\r\n250 8BITMIME\r\n"):
+            for where, reply in ((4, b"451 4.3.0 not now\r\n"), (4, b"554 5.5.0 no\r\n"), (4, b"503 5.5.1 bad sequence\r\n"), (3, b"550 no such user\r\n"), (2, b"451 later\r\n")):
+                script = [step("none", b"220 hi\r\n"), step("line", ehlo), step("line", b"250 ok\r\n"), step("line", b"250 ok\r\n"), step("line", b"354 go\r\n")]
+                script[where] = step("line", reply)
+                script = script[:where + 1] + [step("line", b"221 bye\r\n"), step("line", b"500 what\r\n"), step("line", b"500 what\r\n")]
+                rscs.append({"id": 400000 + len(rscs), "flavor": fl, "timeout_ms": 1500, "server_cap_ms": 700, "servers": [script],
+                             "ops": [{"op": "connect", "hello": hx(b"c03.test")}, {"op": "send", "from": hx(b"a@x.org"), "to": [hx(b"b@y.org")], "msg": hx(smuggle)}, {"op": "quit"}]})
+    ref_bad = []
+    for sc, r in zip(rscs, run_scenarios(rscs)):
+        ctx.count()
+        srv = (r.get("servers") or [None])[0]
+        Rs = events_R(srv) if srv else []
+        verbs = [x.split(b" ")[0].split(b":")[0].strip().upper() for x in Rs]
+        k = next((i for i, st in enumerate(sc["servers"][0]) if st["send"] and unhx(st["send"][0])[:1] in (b"4", b"5")), None)
+        # the commands up to the refused one, then QUIT and nothing else
+        want = [b"EHLO", b"MAIL", b"RCPT", b"DATA"][:k] + [b"QUIT"]
+        if verbs != want or str((r.get("results") or ["", ""])[1]).startswith("ok"):
+            ref_bad.append((sc, "after the refusal of %s (EHLO reply %r) the server read %r in command state; the send returned %s" % (want[-2].decode(), unhx(sc["servers"][0][1]["send"][0])[:60], [x[:30] for x in Rs[k:k + 4]], (r.get("results") or ["", ""])[1])))
+    ctx.cov["oracle"]["no_content_without_354"] = {"cases": len(rscs), "failures": len(ref_bad)}
+    if ref_bad:
+        ctx.violation({"kind": "oracle-content-as-commands", "flavor": ref_bad[0][0]["flavor"], "what": ref_bad[0][1], "scenario": ref_bad[0][0], "failures": len(ref_bad)})
     ctx.cov["oracle"]["low_level_sessions_with_refused_messages"] = {"sessions": len(low), "messages": sum(len(m[1]) for m in low), "failures": len(low_bad)}
     if low_bad:
         j, why = low_bad[0]
